@@ -66,6 +66,8 @@ class Tier:
             return onp.complex128(v) if cplx else onp.float64(v)
         if kind == "f32":
             return onp.array(v, dtype=onp.complex64 if cplx else onp.float32)
+        if kind == "ld":
+            return onp.array(v, dtype=onp.clongdouble if cplx else onp.longdouble)
         raise KeyError(kind)
 
     def kinds_for(self, shape, mixing=False):
@@ -73,6 +75,8 @@ class Tier:
         out = ["arr"] if len(shape) else ["0d", "py", "np"]
         if mixing and ((not self.quick and not self.cplx and len(shape) in (0, 1, 2)) or (self.cplx and len(shape) == 1)):
             out.append("f32")       # float32 / complex64 arrays
+            if len(shape) == 1:
+                out.append("ld")    # longdouble / clongdouble arrays: a default-precision partner must still get a default-precision gradient
         return out
 
 
